@@ -204,7 +204,10 @@ def merge(results):
     ev = 0
     nontrivial = set()
     counters, hists, samples, violations, inconc, exhaustive = {}, {}, {}, {}, [], {}
+    distinct_sets = {}
     for r in results:
+        for k, v in r.get("distinct_sets", {}).items():
+            distinct_sets.setdefault(k, set()).update(v)
         ev += r["evaluations"]
         nontrivial.update(r["nontrivial"])
         for k, v in r["counters"].items():
@@ -225,6 +228,7 @@ def merge(results):
         inconc.extend(r["inconclusive"])
         for k, v in r.get("exhaustive", {}).items():
             exhaustive[k] = exhaustive.get(k, 0) + v
+    hists["_distinct_observed"] = {k: len(v) for k, v in distinct_sets.items()}
     return ev, nontrivial, counters, hists, samples, violations, inconc, exhaustive
 
 
@@ -303,7 +307,8 @@ def conclude(mod, check_id, tier, seed, results, problems, wall, write_evidence)
                 "rule": mod.RULE,
                 "samples": sample_list[:8],
                 "monitor_evaluations": {k: v for k, v in sorted(counters.items())},
-                "observed": hists,
+                "observed": {k: v for k, v in hists.items() if k != "_distinct_observed"},
+                "distinct_observed": hists.get("_distinct_observed", {}),
                 "exhaustive_slices": exhaustive,
                 "exhaustive": bool(getattr(mod, "EXHAUSTIVE", {}).get(tier, False)),
                 "verdict": status,
